@@ -168,6 +168,7 @@ inductive Out
   | removed (v : Option Bytes) (found : Bool)
   | read (served walked : Option Bytes)
   | err (e : String)
+  | stampAhead (v : Ver)
   | crashed
   | dumped (db : DB)
   | stress
@@ -232,9 +233,7 @@ def loadWith (rule : DB → Handle → Ensure) (db : DB) (fastOpt : Bool) (skew 
     else match rule db h with
       | .noop => (db, some { h with ensured := true }, .okN v)
       | .rebuild => (rebuild db h, some { h with ensured := true }, .okN v)
-      | .ahead => (db, some h, .err s!"stampahead {v}")
-
-def load := loadWith ensureDecision
+      | .ahead => (db, some h, .stampAhead v)
 
 /-- bare `LoadVersion(v)` (v > 0) on a fresh handle. -/
 def loadVersion (db : DB) (fastOpt : Bool) (skew : Nat) (v : Ver) : Option Handle × Out :=
@@ -243,18 +242,19 @@ def loadVersion (db : DB) (fastOpt : Bool) (skew : Nat) (v : Ver) : Option Handl
   | none => (none, .err "nover")
   | some h => (some h, .okN (maxOf vis))
 
-def openHandle (db : DB) (fast : Bool) (mode : Mode) (skew : Nat) : DB × Option Handle × Out :=
+def openHandle (rule : DB → Handle → Ensure) (db : DB) (fast : Bool) (mode : Mode) (skew : Nat) :
+    DB × Option Handle × Out :=
   match mode with
-  | .load => load db fast skew
+  | .load => loadWith rule db fast skew
   | .ro =>
     match loadReadonly db fast skew with
     | none => (db, none, .err "nover")
     | some (h, v) => (db, some h, .okN v)
   | .lv v =>
-    if v = 0 then load db fast skew
+    if v = 0 then loadWith rule db fast skew
     else let (h, o) := loadVersion db fast skew v; (db, h, o)
   | .loadlv v =>
-    match load db fast skew with
+    match loadWith rule db fast skew with
     | (db', some h, .okN lv) =>
       if lv = v then (db', some h, .okN lv)
       else match loadVersion db' fast skew v with
@@ -317,10 +317,11 @@ def prune (db : DB) (h : Handle) (to : Ver) : Option (DB × Handle) × Out :=
 
 def dropAll (st : State) : State := { st with hs := fun _ => none, vs := fun _ => none }
 
-def step (st : State) : Op → State × Out
+/-- one operation; `rule` is the decision procedure of `ensureFastIndex`. -/
+def stepWith (rule : DB → Handle → Ensure) (st : State) : Op → State × Out
   | .open_ slot fast mode skew =>
     if slot = 0 ∧ skew ≠ 0 then (st, .err "badop") else
-    let (db', h, o) := openHandle st.db fast mode skew
+    let (db', h, o) := openHandle rule st.db fast mode skew
     ({ st with db := db', hs := upd st.hs slot h }, o)
   | .set slot k v =>
     if slot ≠ 0 then (st, .err "badop") else
@@ -410,17 +411,21 @@ def step (st : State) : Op → State × Out
     | none => (dropAll st, .crashed)
     | some (h, v) =>
       if v = 0 then (dropAll st, .crashed)
-      else match ensureDecision st.db h with
+      else match rule st.db h with
         | .rebuild => (dropAll { st with db := applyWrites st.db ((rebuildWrites st.db h).take n) }, .crashed)
         | _ => (dropAll st, .crashed)
   | .dump => (st, .dumped st.db)
   | .stress => (st, .stress)
 
-def run (st : State) : List Op → State × List Out
+def runWith (rule : DB → Handle → Ensure) (st : State) : List Op → State × List Out
   | [] => (st, [])
   | op :: ops =>
-    let (st', o) := step st op
-    let (st'', os) := run st' ops
-    (st'', o :: os)
+    let r := stepWith rule st op
+    let rs := runWith rule r.1 ops
+    (rs.1, r.2 :: rs.2)
+
+/-- the code as it is. -/
+def step := stepWith ensureDecision
+def run := runWith ensureDecision
 
 end GnoVerif.C26
